@@ -640,7 +640,12 @@ def run_o2(ses, rep):
 def replay(path):
     d = json.load(open(path))
     r = d["replay"]
-    v, rec = REPLAYS[r["kind"]](r["info"])
+    if "tree" in r and "entry" in r:        # recorded by C05's composer (O2)
+        from . import c05
+        tup = lambda x: tuple(tup(y) for y in x) if isinstance(x, list) else x
+        v, rec = c05.replay_tree(tup(r["tree"]), r["entry"], r["fs"])
+    else:
+        v, rec = REPLAYS[r["kind"]](r["info"])
     print(v or "property holds for the recorded scenario")
     if v:
         print(f"VIOLATION property=C01 replay={path}")
